@@ -253,11 +253,20 @@ pub fn shim_vec_iter_fold<T, B, F: FnMut(B, &T) -> B>(v: &Vec<T>, init: B, Ghost
     v.iter().fold(init, f)
 }
 
+/// "y is what `x.clone()` returned" for an arbitrary Clone type (vstd's `cloned` is not available for tuples)
+pub uninterp spec fn clone_rel<T>(x: T, y: T) -> bool;
+/// Assumed: Clone for pairs is component-wise.
+#[verifier::external_body]
+pub proof fn axiom_clone_pair<K: Clone, V: Clone>(x: (K, V), y: (K, V))
+    requires clone_rel(x, y),
+    ensures cloned(x.0, y.0), cloned(x.1, y.1),
+{}
+
 /// `V.iter().cloned().map(F).collect()` into a Vec
 #[verifier::external_body]
 pub fn shim_vec_iter_cloned_map_collect<T: Clone, U, F: FnMut(T) -> U>(v: &Vec<T>, f: F) -> (r: Vec<U>)
-    requires forall|i: int, x: T| 0 <= i < v@.len() && #[trigger] cloned(v@[i], x) ==> call_requires(f, (x,)),
-    ensures r@.len() == v@.len(), forall|i: int| #![trigger r@[i]] 0 <= i < v@.len() ==> exists|x: T| #[trigger] cloned(v@[i], x) && call_ensures(f, (x,), r@[i]),
+    requires forall|x: T| call_requires(f, (x,)),
+    ensures r@.len() == v@.len(), forall|i: int| #![trigger r@[i]] 0 <= i < v@.len() ==> exists|x: T| #[trigger] clone_rel(v@[i], x) && call_ensures(f, (x,), r@[i]),
 {
     v.iter().cloned().map(f).collect()
 }
